@@ -100,6 +100,7 @@ def main(tier: str, seed: int, replay: str | None = None) -> int:
     rep = C.Report("C06", tier, seed)
     rep.proof_stage()
     rep.proof_stage("C06_list")     # engine accepts iff fits, for any list of base-type alternatives
+    rep.proof_stage("C06_conc")     # accept iff fits, exact outcome and result, for CONCRETE alternatives of any shape
     rep.proof_stage("C06_pat")      # pattern alternatives F(b), R(b, _): the unique fitting alternative determines b; exact final stores
     rng = random.Random(seed)
     quick = tier == "quick"
